@@ -17,7 +17,8 @@ inductive LR (β : Type) where
   deriving Repr
 
 /-- `parse_2_elem_f64_arr`: `'[' expr ',' expr ']'`, both entries compiled with arity 0 and
-    evaluated on the spot (`[v1.eval(&[]), v2.eval(&[])]`) -/
+    evaluated on the spot with `safe_eval(&[])`; an entry that contains a variable is a parse
+    error (since fix commit "a variable in an interval or polygon entry is a parse error") -/
 def parse2 (ctx : Ctx) (s : List Char) : LR (E × E) :=
   match s with
   | '[' :: r =>
@@ -29,7 +30,7 @@ def parse2 (ctx : Ctx) (s : List Char) : LR (E × E) :=
       | .oof => .oof
       | .fail => .fail
       | .ok (']' :: r3) v2 =>
-        if v1.varsLt 0 && v2.varsLt 0 then .ok r3 (v1, v2) else .panic
+        if v1.varsLt 0 && v2.varsLt 0 then .ok r3 (v1, v2) else .fail
       | .ok _ _ => .fail
     | .ok _ _ => .fail
   | _ => .fail
